@@ -33,12 +33,17 @@ CHECKS = {
               "values that every bonded consumer data/valid pin and every external output equals its producer, and every bonded producer's "
               "received line equals the AND of the received lines of exactly the inputs bonded to it; (2) the same relation is decided for "
               "the simulator's interconnect by symbolic execution of bondmachine.VM.Step (two ticks, processors running 'j 0', all port "
-              "values symbolic). Stream equality between HDL and simulation over programs, input streams and stalls (part (b)) is NOT "
-              "covered by this check."),
+              "values symbolic). Part (b), bounded and per concrete program: for each source of a seeded one-CP family the real assembler is run "
+              "natively, the real generators write the Verilog of the emitted machine (top level, arch wrapper, processor and the ROM with "
+              "its GENERATED CONTENTS), /verif/vlog unrolls it from a reset cycle and z3 decides that after every cycle every external "
+              "output and the pc, and at the horizon every register, equal the simulator's after the same number of ticks, FOR ALL values of "
+              "the (constant) external inputs. Input streams, stalls, handshaked I/O and several processors are outside part (b); "
+              "handshakes are decided on both back-ends under C04."),
         note=("Trusted: z3, /verif/vlog, /verif/symgo, cmd/bmnative. Graphs with an unbonded processor input are outside the family "
               "(the generated top level then references an undeclared wire and does not elaborate: C18-class). Shared objects, "
-              "etherbond/udpbond and board top files are outside."),
-        design="DESIGN.md section 3, C02 (a)",
+              "etherbond/udpbond and board top files are outside. Part (b) takes registers the generated reset does not assign (output "
+              "registers) to power up at 0."),
+        design="DESIGN.md section 3, C02; Changes after round 0 (R4)",
         engine="vlog+symgo",
         technique="generated top-level netlist -> combinational terms (own Verilog translator) and go/ssa symbolic execution of the simulator's interconnect, both checked against the bond-graph relation by z3"),
     "C03": dict(
